@@ -17,6 +17,7 @@ any number of subscriptions and types) — by induction with the representation 
 `Lemmas.Event.Inv` and the refinement relation `Lemmas.Event.Rel`.
 -/
 import BytomModel.Lemmas.Event
+import BytomModel.Lemmas.EventConc
 
 namespace BytomModel.Props.C39
 open BytomModel.Event BytomModel.Lemmas.Event
@@ -283,6 +284,61 @@ theorem subscribe_dup_iff (cap : Nat) (ops : List Op) (ts : List Nat)
 theorem dupFreePrefix_nodup (ts : List Nat) (h : ts.Nodup) : dupFreePrefix [] ts = ts :=
   (dupFreePrefix_eq_self [] ts).mpr ⟨h, by simp⟩
 
+/-! ### several goroutines: every interleaving of the atomic steps (`Model/EventConc.lean`) -/
+
+section Concurrent
+open BytomModel.EventConc BytomModel.Lemmas.EventConc
+
+/-- **per_sender_fifo** — for ANY number of goroutines running ANY programs of
+post/subscribe/unsubscribe/stop/receive operations, under ANY schedule of their atomic steps
+(snapshot under the read lock, one `deliver` per subscription of the snapshot, `del`,
+`closewait`, …): the events of poster `p` that reached the channel of subscription `sid`
+form a subsequence of the events `p` posted, in `p`'s program order — per-poster FIFO, and
+no event is delivered twice to the same subscription. (The relative order of DIFFERENT
+posters is whatever the schedule makes it; it is not constrained.) -/
+theorem per_sender_fifo (cap : Nat) (progs : List (List COp)) (sched : List Nat) (p sid : Nat) (t : Thread)
+    (ht : (runSched (initC cap progs) sched).threads[p]? = some t) :
+    (deliveredFrom (runSched (initC cap progs) sched) p sid).Sublist t.posted :=
+  ((cinv_run sched _ (cinv_init cap progs)).threads p t ht).sublist sid
+
+/-- **unsubscribe_never_waits** — a goroutine that is about to run `Unsubscribe` finishes it
+with at most two steps of its own (`del`, then `closewait`; one step for a handle the
+dispatcher never issued), whatever the other goroutines do before and between these steps
+(`σ₁`, `σ₂` are arbitrary schedules of the OTHER threads) and whatever the buffers contain:
+there is no state in which its next step is not enabled. -/
+theorem unsubscribe_never_waits (c : CState) (i id : Nat) (t : Thread) (rest : List COp)
+    (ht : c.threads[i]? = some t) (hpc : t.pc = .idle) (hprog : t.prog = .unsubscribe id :: rest)
+    (σ₁ : List Nat) (h1 : i ∉ σ₁) :
+    ∃ t1, (stepThread (runSched c σ₁) i).threads[i]? = some t1 ∧ t1.prog = rest ∧
+      (t1.pc = .idle ∨
+        (t1.pc = .closing id ∧ ∀ σ₂ : List Nat, i ∉ σ₂ →
+          ∃ t2, (stepThread (runSched (stepThread (runSched c σ₁) i) σ₂) i).threads[i]? = some t2 ∧
+            t2.prog = rest ∧ t2.pc = .idle)) := by
+  have e1 : (runSched c σ₁).threads[i]? = some t := by rw [run_other_threads σ₁ i h1]; exact ht
+  have s1 := step_unsubscribe (runSched c σ₁) i id t rest e1 hpc hprog
+  by_cases hid : id < (runSched c σ₁).s.subs.length
+  · simp only [hid, if_true] at s1
+    refine ⟨_, s1, rfl, Or.inr ⟨rfl, ?_⟩⟩
+    intro σ₂ h2
+    have e2 := s1
+    rw [← run_other_threads σ₂ i h2] at e2
+    exact ⟨_, step_closing _ i id _ e2 rfl, rfl, rfl⟩
+  · simp only [hid, if_false] at s1
+    exact ⟨_, s1, rfl, Or.inl hpc⟩
+
+/-- **post_after_stop_fails (any interleaving)** — once some goroutine's `Stop` step has
+happened, the dispatcher stays stopped under every later step of every goroutine, so every
+`Post` whose first step comes later takes the `ErrMuxClosed` branch (it posts nothing: the
+thread's `posted` log is unchanged and it does not enter the delivering state). -/
+theorem conc_post_after_stop_fails (c : CState) (hst : c.s.stopped = true) (sched : List Nat)
+    (i : Nat) (t : Thread) (e : Ev) (rest : List COp)
+    (ht : (runSched c sched).threads[i]? = some t) (hpc : t.pc = .idle) (hprog : t.prog = .post e :: rest) :
+    (stepThread (runSched c sched) i).threads[i]? = some { t with prog := rest } ∧
+    (stepThread (runSched c sched) i).log = (runSched c sched).log := by
+  exact step_post_stopped _ i t e rest ht hpc hprog (run_stopped sched c hst)
+
+end Concurrent
+
 /-! ### the hypotheses are satisfiable / the model does what the comments say (tests) -/
 
 /-- test: a history with two subscribers, a full buffer (cap 2) and an unsubscribe -/
@@ -300,6 +356,11 @@ example : (View.run 8 0 View.init sampleOps).offered.length ≤ 8 := by decide
 `Subscribe(0,1,0)` leaves a ghost subscription registered under 0 and 1 -/
 example : (subscribe (init 4) [0, 1, 0]).2 = .subDup ∧ (subscribe (init 4) [0, 1, 0]).1.subm = [(0, [0]), (1, [0])] := by
   decide
+/-- test (concurrent model): two posters and an unsubscriber, one particular schedule -/
+example :
+    let c := EventConc.runSched (EventConc.initC 4 [[.subscribe [0], .unsubscribe 0], [.post ⟨0, 1⟩, .post ⟨0, 2⟩], [.post ⟨0, 7⟩]])
+      [0, 1, 2, 1, 2, 1, 0, 1, 0, 1, 1]
+    EventConc.deliveredFrom c 1 0 = [⟨0, 1⟩] ∧ EventConc.deliveredFrom c 2 0 = [⟨0, 7⟩] := by decide
 /-- test: a subscription with an empty type list is not closed by `Stop` -/
 example : (final (init 4) [.subscribe [], .subscribe [3], .stop]).subs.map (·.closed) = [false, true] := by decide
 
